@@ -429,13 +429,16 @@ def mainLoop (P : Problem α) (dir : Direction D α) (pr : Params α) (stop : Na
     if h.2.2 != .Busy then exitBlock P pr h.1 h.2.1 h.2.2 x0 y Sig errz0
     else mainLoop P dir pr stop oot x0 y Sig errz0 fuel (iterBody P dir pr stop h.1 h.2.1)
 
-/-- The initial `while (curr->L < L_max && qub_violated(*curr))` loop.
+/-- The initial `while (!stop_signal.stop_requested() && curr->L < L_max && qub_violated(*curr))`
+    loop: the flag is polled first, at the tick the condition is tested.
     Returns (iterate, tick, number of backtracks, fuel exhausted). -/
-def initQub (P : Problem α) (pr : Params α) : Nat → Iterate α → Nat → Nat → Iterate α × Nat × Nat × Bool
+def initQub (P : Problem α) (pr : Params α) (stop : Nat → Bool) :
+    Nat → Iterate α → Nat → Nat → Iterate α × Nat × Nat × Bool
   | 0, c, t, b => (c, t, b, true)
   | f + 1, c, t, b =>
+    if stop t then (c, t, b, false) else
     if decide (c.L < pr.Lmax) && qubViolated pr c then
-      initQub P pr f
+      initQub P pr stop f
         (evalPsiHat P pr (evalProxGradStep P { c with gamma := c.gamma / 2, L := c.L * 2 })) (t + 2) (b + 1)
     else (c, t, b, false)
 
@@ -450,8 +453,8 @@ def stats0 (garbageS : α) : Stats α :=
 
 /-- Everything before the main loop: Lipschitz estimate, first proximal-gradient step, initial
     quadratic-upper-bound backtracking.  `Sum.inl ticks` = early `NotFinite` return. -/
-def initState (P : Problem α) (d0 : D) (pr : Params α) (x0 : Vec α) (garbageV : Vec α)
-    (garbageS : α) : Nat ⊕ St α D :=
+def initState (P : Problem α) (d0 : D) (pr : Params α) (stop : Nat → Bool) (x0 : Vec α)
+    (garbageV : Vec α) (garbageS : α) : Nat ⊕ St α D :=
   let blank := blankIterate garbageV garbageS
   let curr := { blank with x := x0 }
   -- Estimate Lipschitz constant
@@ -466,7 +469,7 @@ def initState (P : Problem α) (d0 : D) (pr : Params α) (x0 : Vec α) (garbageV
   else
   let curr := { cnt.1 with gamma := pr.LgammaFactor / cnt.1.L }
   -- First proximal gradient step, then the quadratic upper bound loop
-  let r := initQub P pr pr.lsFuel (evalPsiHat P pr (evalProxGradStep P curr)) (cnt.2.2 + 2) 0
+  let r := initQub P pr stop pr.lsFuel (evalPsiHat P pr (evalProxGradStep P curr)) (cnt.2.2 + 2) 0
   .inr { curr := r.1, next := cnt.2.1, q := garbageV, d := d0, tick := r.2.1,
          stats := { stats0 garbageS with stepsizeBacktracks := r.2.2.1 }, k := 0, noProgress := 0,
          cbs := [], fuelOut := r.2.2.2 }
@@ -474,7 +477,7 @@ def initState (P : Problem α) (d0 : D) (pr : Params α) (x0 : Vec α) (garbageV
 /-- `PANOCSolver::operator()`. `garbage*` is the arbitrary content of never-written storage. -/
 def run (P : Problem α) (dir : Direction D α) (d0 : D) (pr : Params α) (stop : Nat → Bool)
     (oot : Bool) (x0 y Sig errz0 : Vec α) (garbageV : Vec α) (garbageS : α) : Result α D :=
-  match initState P d0 pr x0 garbageV garbageS with
+  match initState P d0 pr stop x0 garbageV garbageS with
   | .inl ticks =>
     { stats := { stats0 garbageS with status := .NotFinite }, dfinal := d0, x := x0, y := y,
       errz := errz0, wrote := false, callbacks := [], ticks := ticks, final := none }
